@@ -144,7 +144,9 @@ ActOK(n) == ActHolds(n, s, T(last'), s')
 KF_EditFull == used["user.editplan"] > 0
 Act_C01 == [][ActOK("C01a") /\ ActOK("C01ro") /\ ActOK("C01b") /\ ActOK("C01c")]_vars
 Act_C02 == [][ActOK("C02") /\ ActOK("C02pause") /\ ActOK("C02promote") /\ ActOK("C02edit") /\ (ActOK("C02adv") \/ KF_EditFull)]_vars
-Act_C03 == [][(ActOK("C03a") \/ KF_EditFull) /\ ActOK("C03b") /\ (ActOK("C03c") \/ KF_EditFull)]_vars
+\* KF-C03-superseding-revision-released-after-jump-back
+KF_JumpSup == s.ghost.jumpBack /\ s.user.rev = 3 /\ last' = "br"
+Act_C03 == [][(ActOK("C03a") \/ KF_EditFull) /\ ActOK("C03b") /\ (ActOK("C03c") \/ KF_EditFull \/ KF_JumpSup)]_vars
 Act_C10 == [][ActOK("C10a")]_vars
 Act_C11 == [][ActOK("C11a") /\ ActOK("C11b") /\ ActOK("C11c") /\ ActOK("C11d")]_vars
 Act_C18 == [][(ActOK("C18a") \/ KF_HoldLeft(s) \/ KF_DisSup(s) \/ KF_MidSwitch(s)) /\ ActOK("C18br") /\ ActOK("C18tr")]_vars
